@@ -8,10 +8,10 @@ from .. import cbuild, core, pscommon as pc, report_parser, toolrun
 LEVEL = "exploration"
 ENGINE = "progspace"
 TECHNIQUE = "bounded exhaustive exploration: every placement of K types over {public header, private header, .c file, declared-only in the public header with the definition in a private header or in the .c file} x every non-empty set of mutated types x {--headers-dir, --header-file} x {with, without --drop-private-types} (+ the abidw --headers-dir --drop-private-types route); oracle from the generator's placement model"
-RULE = ("library = K slots (K=2 quick, 3 thorough); slot i is a struct (or an enum in the enum stage) S_i used by exported f_i(S_i*), placed in inc/pub.h | src/priv.h | lib.c | forward-declared in inc/pub.h and defined in src/priv.h | "
+RULE = ("library = K slots (K=2 quick, 3 thorough); slot i is a struct (or an enum in the enum stage) S_i exposed in one of three shapes - separate: one exported f_i(S_i*) per slot; fall: a single function fall(S_0*, S_1*, ...); fhub: a single function fhub(struct Hub*) where the public struct Hub points to every S_i (in the last two, private and public changes meet in one diff node, in both orders) - and placed in inc/pub.h | src/priv.h | lib.c | forward-declared in inc/pub.h and defined in src/priv.h | "
         "forward-declared in inc/pub.h and defined in lib.c. Version 2 grows every S_i of a non-empty subset M (member appended / enumerator value changed). Runs: abidiff with --headers-dir1/2 = inc "
         "or --header-file1/2 = inc/pub.h, each with and without --drop-private-types; and abidw --headers-dir inc --drop-private-types on both versions followed by abidiff of the two documents. Oracle: the set of functions reported "
-        "as changed == { f_i : i in M and slot i is defined in the public header }; exit status 0 exactly when that set is empty. Non-trivial: every run.")
+        "as changed == { f_i : i in M and slot i is defined in the public header } (for the shapes fall / fhub: that one function, exactly when the set is not empty); exit status 0 exactly when that set is empty. Non-trivial: every run.")
 TEXT = "Complete cross of placements x mutated subsets x option routes."
 NOTE = ("Header matching is by file base name (documented); no two files of a program share a base name here. A private type embedded by value in a public type is not in the alphabet: such a public header "
         "cannot be compiled by a consumer without the private header, i.e. the type is not private in any real sense.")
@@ -29,7 +29,8 @@ def stages(ctx):
     for locs in itertools.product(LOCS, repeat=k):
         for r in range(1, k + 1):
             for m in itertools.combinations(range(k), r):
-                el.append({"kind": "struct", "locs": list(locs), "mut": list(m)})
+                for shape in ("separate", "fall", "fhub"):
+                    el.append({"kind": "struct", "locs": list(locs), "mut": list(m), "shape": shape})
     en = []
     for locs in itertools.product(["pub", "priv", "src"], repeat=2):
         for m in ((0,), (1,), (0, 1)):
@@ -43,7 +44,7 @@ def _defn(kind, i, mutated):
     return "struct S_%d { int a; long b;%s };" % (i, " int added;" if mutated else "")
 
 
-def _build(kind, locs, mut):
+def _build(kind, locs, mut, shape="separate"):
     pub, priv, src = ["#ifndef PUB_H\n#define PUB_H"], ["#ifndef PRIV_H\n#define PRIV_H"], []
     kw = "enum" if kind == "enum" else "struct"
     for i, loc in enumerate(locs):
@@ -61,12 +62,27 @@ def _build(kind, locs, mut):
         elif loc == "opaque-src":
             pub.append("struct S_%d;" % i)
             src.append(d)
-        if loc != "src":
-            pub.append("int f_%d(%s p);" % (i, arg))
-        src.append("int f_%d(%s p) { return p != 0; }" % (i, arg))
+        if shape == "separate":
+            if loc != "src":
+                pub.append("int f_%d(%s p);" % (i, arg))
+            src.append("int f_%d(%s p) { return p != 0; }" % (i, arg))
+    # two interfaces that mix all the (header-visible) types, in slot order: a function taking every type, and a function
+    # taking a public structure that points to every type
+    inc = list(range(len(locs)))
+    if shape == "fall":
+        args = ", ".join("%s S_%d* p%d" % (kw, i, i) for i in inc)
+        pub.append("int fall(%s);" % args)
+        src.append("int fall(%s) { return p%d != 0; }" % (args, inc[0]))
+    elif shape == "fhub":
+        pub.append("struct Hub { %s };" % " ".join("%s S_%d* m%d;" % (kw, i, i) for i in inc))
+        pub.append("int fhub(struct Hub* h);")
+        src.append("int fhub(struct Hub* h) { return h != 0; }")
     pub.append("#endif\n")
     priv.append("#endif\n")
     text = '#include "priv.h"\n#include "pub.h"\n' + "\n".join(src) + "\n"
+    if shape != "separate":
+        # the interface is declared in pub.h: types defined in lib.c need a forward declaration there
+        pub = [pub[0]] + ["%s S_%d;" % (kw, i) for i, loc in enumerate(locs) if loc == "src" and kind != "enum"] + pub[1:]
     lib = cbuild.compile_units([("src/lib.c", text, ["-g", "-Iinc", "-Isrc"])], link_flags=["-Wl,-soname,libhdr.so"], out_name="libhdr.so",
                                extra_files={"inc/pub.h": "\n".join(pub), "src/priv.h": "\n".join(priv)}, tag="c26")
     return lib, cbuild.srcdir_of(lib)
@@ -74,9 +90,12 @@ def _build(kind, locs, mut):
 
 def evaluate(ctx, e):
     kind, locs, mut = e["kind"], e["locs"], set(e["mut"])
-    l1, s1 = _build(kind, locs, set())
-    l2, s2 = _build(kind, locs, mut)
+    shape = e.get("shape", "separate")
+    l1, s1 = _build(kind, locs, set(), shape)
+    l2, s2 = _build(kind, locs, mut, shape)
     expect = set("f_%d" % i for i in mut if locs[i] == "pub")
+    if shape != "separate":
+        expect = {shape} if expect else set()
     routes = []
     for hname, hopts in (("headers-dir", ["--headers-dir1", s1 + "/inc", "--headers-dir2", s2 + "/inc"]),
                          ("header-file", ["--header-file1", s1 + "/inc/pub.h", "--header-file2", s2 + "/inc/pub.h"])):
@@ -104,18 +123,18 @@ def evaluate(ctx, e):
             fails.append({"sig": "C26 abidiff %s %s %s" % (o, site, rname), "what": "%s mut=%s: rc=%s %s" % (locs, sorted(mut), rc, err[-300:])})
             continue
         rep = report_parser.parse(out)
-        got = pc.names_in(rep, ["changed_functions"], r"\b(f_\d+)\b")
-        other = pc.names_in(rep, ["removed_functions", "added_functions"], r"\b(f_\d+)\b")
-        desc = "%s placement=%s mutated=%s route=%s" % (kind, locs, sorted(mut), rname)
+        got = pc.names_in(rep, ["changed_functions"], r"\b(f_\d+|fall|fhub)\b")
+        other = pc.names_in(rep, ["removed_functions", "added_functions"], r"\b(f_\d+|fall|fhub)\b")
+        desc = "%s placement=%s mutated=%s shape=%s route=%s" % (kind, locs, sorted(mut), shape, rname)
         ok = True
         if expect - got:
-            fails.append({"sig": "C26 abidiff public-change-hidden %s %s %s" % (kind, rname, cls), "what": "%s: %s not reported (exit %s)\n%s" % (desc, sorted(expect - got), rc, out[:400])})
+            fails.append({"sig": "C26 abidiff public-change-hidden %s %s %s %s" % (kind, rname, cls, shape), "what": "%s: %s not reported (exit %s)\n%s" % (desc, sorted(expect - got), rc, out[:400])})
             ok = False
         if got - expect or other:
-            fails.append({"sig": "C26 abidiff private-change-reported %s %s %s" % (kind, rname, cls), "what": "%s: %s reported (exit %s)\n%s" % (desc, sorted((got - expect) | other), rc, out[:500])})
+            fails.append({"sig": "C26 abidiff private-change-reported %s %s %s %s" % (kind, rname, cls, shape), "what": "%s: %s reported (exit %s)\n%s" % (desc, sorted((got - expect) | other), rc, out[:500])})
             ok = False
         if ok and bool(rc & 4) != bool(expect):
-            fails.append({"sig": "C26 abidiff exit-disagrees %s %s %s" % (kind, rname, cls), "what": "%s: exit %s but expected changed set %s\n%s" % (desc, rc, sorted(expect), out[:400])})
+            fails.append({"sig": "C26 abidiff exit-disagrees %s %s %s %s" % (kind, rname, cls, shape), "what": "%s: exit %s but expected changed set %s\n%s" % (desc, rc, sorted(expect), out[:400])})
             ok = False
         k = "%s:%s" % ("reported" if expect else "filtered", "ok" if ok else "wrong")
         outs[k] = outs.get(k, 0) + 1
